@@ -71,6 +71,15 @@ class Dom:
             return num(x)
         if x is None or (isinstance(x, float) and math.isnan(x)) or x is pd.NaT:
             return None
+        try:
+            if pd.isna(x):
+                return None
+        except (TypeError, ValueError):
+            pass
+        if isinstance(x, (float, np.floating)):
+            return num(x)          # e.g. the 0.0 integral of a function without finite defined piece
+        if isinstance(x, (int, np.integer)):
+            return F(int(x), 3600 * 10**9)      # nanoseconds from timedelta64.tolist()
         return F(pd.Timedelta(x).value, 3600 * 10**9)
 
 
